@@ -805,6 +805,8 @@ impl FrontendInternal {
         }
         self.check_state()?;
 
+        #[cfg(feature = "verif-hooks")]
+        super::verif::hold("fe.reply_wait");
         let (reply, body, rfds) = self.main_sock.recv_body::<T>()?;
         if !reply.is_reply_for(hdr) || rfds.is_some() || !body.is_valid() {
             return Err(VhostUserError::InvalidMessage);
@@ -821,6 +823,8 @@ impl FrontendInternal {
         }
         self.check_state()?;
 
+        #[cfg(feature = "verif-hooks")]
+        super::verif::hold("fe.reply_wait");
         let (reply, body, files) = self.main_sock.recv_body::<T>()?;
         if !reply.is_reply_for(hdr) || !body.is_valid() {
             return Err(VhostUserError::InvalidMessage);
@@ -854,6 +858,8 @@ impl FrontendInternal {
         self.check_state()?;
 
         let mut buf: Vec<u8> = vec![0; hdr.get_size() as usize - mem::size_of::<T>()];
+        #[cfg(feature = "verif-hooks")]
+        super::verif::hold("fe.reply_wait");
         let (reply, body, bytes, files) = self.main_sock.recv_payload_into_buf::<T>(&mut buf)?;
         if !reply.is_reply_for(hdr)
             || reply.get_size() as usize != mem::size_of::<T>() + bytes
@@ -875,6 +881,8 @@ impl FrontendInternal {
         }
         self.check_state()?;
 
+        #[cfg(feature = "verif-hooks")]
+        super::verif::hold("fe.reply_wait");
         let (reply, body, rfds) = self.main_sock.recv_body::<VhostUserU64>()?;
         if !reply.is_reply_for(hdr) || rfds.is_some() || !body.is_valid() {
             return Err(VhostUserError::InvalidMessage);
